@@ -40,6 +40,7 @@ import HSModel.Proofs.OkStore
 import HSModel.Proofs.OkDelete
 import HSModel.Proofs.RollbackAll
 import HSModel.Proofs.RollbackStoreAll
+import HSModel.Proofs.FaultDMeta
 namespace HS.C13
 variable (cfg : Config) (o : Oracle)
 
@@ -68,6 +69,19 @@ theorem store_metadata_error_or_whole_effect (w : World) (p f : Str) (t : Tok) (
       (∃ e, ((storeMetadata cfg o (.str p) (.ok t) fmt).run w).1 = .error e ∧
         ((storeMetadata cfg o (.str p) (.ok t) fmt).run w).2.st.mdocs = w.st.mdocs) :=
   smeta_error_or_effect cfg o w p f t fmt hp hf hfree
+
+/-- `delete_metadata(pid, format)` under ANY fault plan (any site, one-off or persistent, any state
+    of the plan), from any store and any lock state in which the document's name is free: **it
+    returns and exactly that document is gone, or an error is raised and every document is as
+    before** -/
+theorem delete_metadata_error_or_whole_effect (w : World) (p f : Str) (fmt : SArg) (hfmt : fmt ≠ .none)
+    (hp : checkStringOk p = true) (hf : checkArgFormatId cfg.ns fmt = .ok f)
+    (hfree : o.hId (p ++ f) ∉ w.lk.doc) :
+    (((deleteMetadata cfg o (.str p) fmt).run w).1 = .ok .unit ∧
+        ((deleteMetadata cfg o (.str p) fmt).run w).2.st.mdocs = w.st.mdocs.del (o.hId p, o.hId (p ++ f))) ∨
+      (∃ e, ((deleteMetadata cfg o (.str p) fmt).run w).1 = .error e ∧
+        ((deleteMetadata cfg o (.str p) fmt).run w).2.st.mdocs = w.st.mdocs) :=
+  dmeta_error_or_effect cfg o w p f fmt hfmt hp hf hfree
 
 /-- `tag_object` under any fault plan, from any store and any lock state:
     **a normal return means the whole effect** — the arguments were accepted, the
